@@ -1,6 +1,10 @@
 """C03 - expression evaluation follows the typed operator semantics."""
 
+import collections
 import datetime
+import enum
+import functools
+import http
 import itertools
 import json
 import math
@@ -69,13 +73,13 @@ MAXS = 1000
 # value specifications (JSON-able, used in cases / witnesses / corpus) <-> Python values <-> driver wire
 # ---------------------------------------------------------------------------------------------------------------------
 
-def build(spec):
-    """spec -> Python runtime value"""
+def build(spec, record=None):
+    """spec -> Python runtime value (`record`: the list that host functions built from the spec append their invocations to)"""
     lib = fw.impl()['library']
     if spec is None or isinstance(spec, (bool, str)):
         return spec
     if isinstance(spec, list):
-        return [build(x) for x in spec]
+        return [build(x, record) for x in spec]
     (k, v), = spec.items()
     if k == 'num':
         return float.fromhex(v)
@@ -93,13 +97,18 @@ def build(spec):
     if k == 're':
         return re.compile(v)
     if k == 'obj':
-        return {kk: build(vv) for kk, vv in v}
+        return {kk: build(vv, record) for kk, vv in v}
+    if k == 'sub':
+        # a HOST value: an instance of a SUBCLASS of the Python type that carries the language value v[1] (see SUB_BUILDERS)
+        return SUB_BUILDERS[v[0]](build(v[1], record))
+    if k == 'hostfn':
+        return make_host_fn(v, record if record is not None else [])
     raise ValueError(spec)
 
 
-def build_env(gspecs):
+def build_env(gspecs, record=None):
     """name -> Python value; the spec {'same': other} binds the name to the SAME OBJECT as the global `other`"""
-    env = {k: build(s) for k, s in gspecs.items() if not (isinstance(s, dict) and 'same' in s)}
+    env = {k: build(s, record) for k, s in gspecs.items() if not (isinstance(s, dict) and 'same' in s)}
     for k, s in gspecs.items():
         if isinstance(s, dict) and 'same' in s:
             env[k] = env[s['same']]
